@@ -14,7 +14,8 @@
 import GruleModel.Syntax.Build
 import GruleModel.Properties.C16
 import GruleModel.Properties.SyntaxTie
-import GruleModel.Proofs.ParseDoc
+import GruleModel.Proofs.ParseFuel
+import GruleModel.Proofs.LexFacts
 namespace Grule.C17
 open Grule Grule.Syntax Grule.C16
 
@@ -185,6 +186,26 @@ theorem C17_valid_documents_parse (d : Dec) (cT : Const → List Token) (ot : Bi
     parseRules d (f + 1) n (ParseDoc.fDoc cT ot dT rules) [] = (rules, none) :=
   ParseDoc.parse_doc d cT ot dT hc rules hw f n hf hn
 
+/-- … and with the parser's own fuel: `parseDoc` on the tokens of any well-formed document returns exactly its rules -/
+theorem C17_parseDoc_roundtrip (d : Dec) (cT : Const → List Token) (ot : BinOp → List Char) (dT : String → Token)
+    (hc : ParseAtoms.ConstOK d cT) (rules : List Rule) (hw : ∀ r ∈ rules, ParseDoc.WFRule r ∧ ParseDoc.DescOK dT r.desc) :
+    parseDoc d (ParseDoc.fDoc cT ot dT rules) = (rules, none) :=
+  ParseFuel.parseDoc_roundtrip d cT ot dT hc rules hw
+
+/-- a text that starts with a character no lexer rule can begin with is rejected (`lexical`), whatever follows -/
+theorem C17_illegal_start_rejected (c : Char) (cs : List Char) (h : c ∈ LexFacts.illegalStart) :
+    (front (c :: cs)).verdict ≠ .accepted := by
+  intro hacc
+  have h0 := (accepted_means (c :: cs) hacc).1
+  have h1 := LexFacts.illegal_char_error c cs h
+  omega
+
+/-- leading whitespace never changes the verdict or the rules -/
+theorem C17_leading_whitespace (ws cs : List Char) (h : ∀ c ∈ ws, isWs c = true) (hcs : ∀ c, cs.head? = some c → isWs c = false) :
+    front (ws ++ cs) = front cs := by
+  unfold front
+  rw [LexFacts.lex_leading_ws ws cs h hcs]
+
 #print axioms C17_accepted_all_present
 #print axioms C17_rejected_harmless
 #print axioms C17_rejected_same_instances
@@ -192,6 +213,9 @@ theorem C17_valid_documents_parse (d : Dec) (cT : Const → List Token) (ot : Bi
 #print axioms front_rules_only_when_accepted
 #print axioms accepted_means
 #print axioms C17_valid_documents_parse
+#print axioms C17_parseDoc_roundtrip
+#print axioms C17_illegal_start_rejected
+#print axioms C17_leading_whitespace
 #print axioms Grule.SyntaxTie.tie_lexer_order
 #print axioms Grule.SyntaxTie.tie_lexer_fixed
 #print axioms Grule.SyntaxTie.tie_isc
